@@ -48,7 +48,9 @@ from calmjs.parse.unicode_chars import (
 _w = r'(?:\w|' + COMBINING_MARK + r'|' + CONNECTOR_PUNCTUATION + r')'
 word_char = re.compile(_w)
 required_space = re.compile(
-    r'^(?:' + _w + _w + r'|\+\+|\-\-|//|' + _w + r'\$|\$' + _w + r')$')
+    r'^(?:' + _w + _w + r'|\+\+|\-\-|//|' + _w + r'\$|\$' + _w +
+    # a numeric literal ending with a dot followed by a word (1. in x)
+    r'|\.' + _w + r')$')
 
 # the various assignments symbols; for dealing with pretty spacing
 # a decimal integer literal directly followed by a dot accessor: the dot
